@@ -353,12 +353,68 @@ fn case_headers(case: &Value) -> Vec<(HeaderName, HeaderValue)> {
         .unwrap_or_default()
 }
 
+/// `Body::from` / `Body::empty` conversions (C12): poll the body by hand like any other.
+fn run_conv(out: &mut Out, case: &Value) {
+    let n = case["len"].as_u64().unwrap_or(0) as usize;
+    let data = crate::entity::content(0, n);
+    let kind = case["conv"].as_str().unwrap_or("vec");
+    type B = http_serve::Body<Bytes, BoxError>;
+    let body: B = match kind {
+        "empty" => B::empty(),
+        "vec" => B::from(data.clone()),
+        "string" => B::from(String::from_utf8(data.iter().map(|b| b % 128).collect()).unwrap()),
+        "slice" => B::from(&*Box::leak(data.clone().into_boxed_slice())),
+        _ => B::from(&*Box::leak(String::from_utf8(data.iter().map(|b| b % 128).collect()).unwrap().into_boxed_str())),
+    };
+    out.emit(json!({"ev": "conv", "kind": kind, "len": if kind == "empty" { 0 } else { n }}));
+    let flag = Arc::new(FlagWaker(AtomicBool::new(false)));
+    let waker = Waker::from(flag.clone());
+    let mut cx = Context::from_waker(&waker);
+    let mut body = Box::pin(body);
+    let mut after = 0;
+    let mut total = 0usize;
+    let mut terminal = false;
+    for _ in 0..12 {
+        if terminal {
+            if after >= 3 {
+                break;
+            }
+            after += 1;
+        }
+        let Ok((hint, eos)) = catch(|| (body.size_hint(), body.is_end_stream())) else {
+            out.emit(json!({"ev": "poll", "res": "panic", "n": 0, "lo": limbs(0), "up": none(), "eos": false, "errk": "", "env": [], "nexts": []}));
+            break;
+        };
+        let (lo, up) = hint_fields(&hint);
+        let mut ev = json!({"ev": "poll", "lo": lo, "up": up, "eos": eos, "n": 0, "errk": "", "env": [], "nexts": []});
+        match catch(|| Pin::as_mut(&mut body).poll_frame(&mut cx)) {
+            Err(_) => { ev["res"] = json!("panic"); out.emit(ev); break; }
+            Ok(Poll::Pending) => { ev["res"] = json!("pending"); out.emit(ev); break; }
+            Ok(Poll::Ready(None)) => { ev["res"] = json!("end"); terminal = true; out.emit(ev); }
+            Ok(Poll::Ready(Some(Err(_)))) => { ev["res"] = json!("err"); terminal = true; out.emit(ev); }
+            Ok(Poll::Ready(Some(Ok(f)))) => {
+                if let Ok(d) = f.into_data() {
+                    total += d.remaining();
+                    ev["res"] = json!("data");
+                    ev["n"] = json!(d.remaining());
+                }
+                out.emit(ev);
+            }
+        }
+    }
+    out.emit(json!({"ev": "convend", "total": total}));
+}
+
 pub fn run(cases_path: &str, out_path: &str) {
     silence_panics();
     let cases = read_cases(cases_path);
     let mut out = Out::create(out_path);
     for case in &cases {
         out.emit(json!({"ev": "reset", "case": case["id"]}));
+        if case.get("conv").is_some() {
+            run_conv(&mut out, case);
+            continue;
+        }
         let method_s = case["method"].as_str().unwrap_or("GET");
         let Ok(method) = Method::from_bytes(method_s.as_bytes()) else {
             out.emit(json!({"ev": "skip", "why": "method not accepted by http crate"}));
